@@ -3,6 +3,7 @@
 import Winter.Drv.Util
 import Winter.Model.Field
 import Winter.Model.Divisor
+import Winter.Model.DivisorGen
 
 namespace Drv.C16
 open Model Model.Divisor
@@ -88,8 +89,29 @@ def domainPoints (F : FieldImpl) (n : Nat) : List Nat :=
     | none => F.new 1
   ((List.range n).foldl (fun (st : Nat × List Nat) _ => (F.mul st.1 g, st.1 :: st.2)) (F.new 1, [])).2.reverse
 
+/-- tie T: the divisor of `from_transition` and its value at `x` through the definitions regenerated from
+    air/src/air/divisor.rs on this run; a difference from the model is appended to the model's answer and so
+    shows up as a disagreement with the compiled code -/
+def tdivGen (F : FieldImpl) (n e : Nat) (x : Nat) : String :=
+  let O := ops F
+  let okG := Gen.Divisor.from_transition_ok O.toX n e
+  let dG := Gen.Divisor.from_transition O.toX n e
+  match fromTransition O n e with
+  | .panic _ => if okG then " gen=ok" else ""
+  | .ok d =>
+    if !okG then " gen=panic"
+    else if !(dG.1 == d.numerator && dG.2 == d.exemptions) then " gen=other-divisor"
+    else
+      let x := F.new x
+      let vG := Gen.Divisor.evaluate_at O.toX dG.2 dG.1 x
+      let eG := Gen.Divisor.evaluate_exemptions_at O.toX dG.2 x
+      match d.evalAt O x with
+      | some v => if v == vG && eG == d.evalExemptions O x then "" else s!" gen={F.asInt vG}/{F.asInt eG}"
+      | none => ""
+
 def tdiv (F : FieldImpl) (agg : Bool) (n e : Nat) (x : Nat) : String :=
   let O := ops F
+  (fun (r : String) => r ++ (if n ≤ 4096 then tdivGen F n e x else "")) <|
   match fromTransition O n e, fromTransition O n 0 with
   | .ok d, .ok d0 =>
     if agg then
